@@ -204,6 +204,10 @@ def probe_spec(case, V, I):
         p["vo"] = 1.0
     elif kind == "LinReg":
         p["vo"] = 0.5 * abs(V)
+    if kind == "PMux":
+        # the mux runs from its second input (the first one is a 0 V source)
+        return _spec2([("S0", "Source", [], {"vo": 0.0}), ("S", "Source", [], {"vo": V}),
+                       ("X", kind, ["S0", "S"], p), ("L", "ILoad", ["X"], {"ii": I})])
     return _spec2([("S", "Source", [], {"vo": V}), ("X", kind, ["S"], p),
                    ("L", "ILoad", ["X"], {"ii": I})])
 
